@@ -463,7 +463,8 @@ func (ecd Encoder) Decode(pt *rlwe.Plaintext, values interface{}) (err error) {
 
 			ptT := bufT.Coeffs[0]
 
-			N := ecd.parameters.RingT().N()
+			// Decodes at most len(values) coefficients, like the []uint64 case
+			N := utils.Min(ecd.parameters.RingT().N(), len(values))
 			/* #nosec G115 -- PlaintextModulus <= 61 bits */
 			modulus := int64(ecd.parameters.PlaintextModulus())
 			modulusHalf := modulus >> 1
